@@ -44,33 +44,37 @@ ENGINES = ["lean-model", "purediff", "kopfsim"]
 TIE = ("D: real patching.patch_obj / application.apply against the stateful fake API, bounded-exhaustive grid "
        "(thorough) + random contents; S: every patch_obj call of whole-operator simulations replayed through the model")
 LEVEL_TEXT = (
-    "Lean theorems for ALL patch contents (well-formed field dicts x fn lists), with/without a status subresource, all "
-    "foreign writes (edit / finalizer edit / delete / delete-and-recreate) before any of the four requests and all 404/422 "
-    "injections: merge_delivered, routed_by_subresource, merge_complete and status_removal_delivered (`status: null` reaches "
-    "/status like any status patch; the model follows the repair of C08-F1, commit 3352e7b), fns_atomic, conflict_keeps_all_fns, remaining_only_after_refusal, "
-    "block_idem / allow_idem / foreign_finalizers_untouched, carried_after_conflict + framework_fns_not_carried (handler fns are "
-    "carried, the framework's finalizer edits never), carry_forward (exactly one application of carried + newly decided fns to "
-    "the then-fresh state), finalizer_redecided (relative to any decision function: the conflicting decision is dropped, the "
-    "decision on the fresh state is applied once) and carry_forward_not_repeated, reapply_membership (+ reapply_order_witness: re-application after a status-JSON conflict "
-    "can permute a mixed fn list), silent_404, raised_only_on_merge_422, same_object_partial (no recreate under the name "
-    "during the call) and the negation of the full same_object: name_reuse_witness (finding F2). The model is hand-written; "
-    "it is tied to the real patch_obj/apply by a differential run (complete over the stated 32130-case grid in the thorough "
-    "tier, sampled in quick, plus random contents) and to the whole operator by replaying every observed patch_obj call. "
-    "The model follows commit 1c8f3dd (F5 repaired: the framework's finalizer edits are re-decided, not carried).")
+    "Lean theorems for ALL patch contents (well-formed field dicts x fn lists), with/without a status subresource, any list "
+    "of foreign writes (edit / finalizer edit / delete / delete-and-recreate) before any of the four requests and any "
+    "injected status (404, 422, any other API error): merge_delivered, routed_by_subresource, merge_complete, "
+    "status_removal_delivered; fns_atomic, conflict_keeps_all_fns, remaining_only_after_refusal; carry-forward of "
+    "process_resource_event after commit 1c8f3dd: carried_until_accepted (a handler-supplied fn stays in the memory and in "
+    "every patch through ANY run of refused/failed cycles), accepted_call_empties_memory, carry_forward (any dict content of "
+    "the next cycle: exactly one application of carried + newly decided fns to the then-fresh finalizer list), "
+    "stale_view_conflicts_and_carries (stale event body: refused again, nothing written, carried again), finalizer_redecided "
+    "(relative to any decision function: the framework's conflicting finalizer edit is dropped and the decision on the fresh "
+    "state is applied once — the code re-decides instead of the property's literal `carried and re-evaluated`); "
+    "not_duplicated_partial + reapplied_after_status_conflict_witness (after a 422 on the FOURTH request the handler-supplied "
+    "body fns are applied a second time: membership is preserved for state-checking fns, which docs/patches.rst demands; the "
+    "order may change — documented contract, not a finding); silent_404, raised_only_on_api_error; same_object_partial and the "
+    "negation of the full same_object: name_reuse_witness (finding F2). Hand-written model, tied to the real "
+    "patch_obj/apply by a differential run (complete over the stated 32130-case grid in the thorough tier, sampled in quick, "
+    "plus random contents, several writes per slot, error codes 400/409) and to the whole operator by replaying every "
+    "observed patch_obj call. The eventual state of the framework's own finalizer and `applied exactly once` for handler fns "
+    "in closed loops are checked by the oracle.")
 THEOREMS = [("Kopf.Props.C08", "Kopf.C08." + n) for n in [
     "merge_delivered", "routed_by_subresource", "merge_complete", "status_removal_delivered",
     "fns_atomic", "conflict_keeps_all_fns", "remaining_only_after_refusal",
-    "block_idem", "allow_idem", "foreign_finalizers_untouched",
-    "carried_after_conflict", "framework_fns_not_carried", "carry_forward", "finalizer_redecided",
-    "carry_forward_not_repeated", "reapply_membership", "reapply_order_witness",
-    "silent_404", "raised_only_on_merge_422", "same_object_partial", "name_reuse_witness"]]
+    "carry_forward", "stale_view_conflicts_and_carries", "accepted_call_empties_memory", "carried_until_accepted",
+    "finalizer_redecided", "not_duplicated_partial", "reapplied_after_status_conflict_witness",
+    "silent_404", "raised_only_on_api_error", "same_object_partial", "name_reuse_witness"]]
 RULE = (
     "grid: subresource(2) x initial object {plain, foreign+own finalizer, marked+own finalizer}(3) x fields {none, "
     "metadata annotations, spec, status, metadata+status}(5) x fns {none, [block], [allow], [block,allow], [setStatus], "
     "[block,setStatus], [user block, block]}(7) x slip {none | one of 4 request kinds x (edit spec, edit finalizers, delete, "
     "delete-and-recreate)}(17) x fault {none | one of 4 kinds x (404, 422)}(9) = 32130 cases (5/6 with process_resource_event's carry rule, 1/6 with the daemons'), half of them followed by a "
     "second (quiet) cycle that starts from the remaining patch; random stream: nested field dicts with null leaves, "
-    "empty dicts, lists, unicode; 0-3 fns over two finalizer names and status keys; 0-2 slips; 0-2 faults; a case is "
+    "empty dicts, lists, unicode; 0-3 fns over two finalizer names and status keys; 0-2 slip slots with 1-3 writes each; 0-2 faults over {404, 422, 400, 409}; a case is "
     "distinct & non-trivial by its abstract trace (request kinds, codes, uid hits, slip fired, outcome) when at least "
     "one request was sent")
 TRUSTED = [
@@ -85,7 +89,11 @@ ASSUMPTIONS = [
     "labels/annotations values in patches are objects (Kubernetes rejects anything else)",
     "transformation functions: kopf's block_deletion/allow_deletion plus one user-style status setter; "
     "arbitrary user fns are outside the model",
-    "HTTP errors other than 404/422 are C12's subject",
+    "HTTP errors other than 404/422 only end the call with an exception here (modelled as `Fault.error`); retries of "
+    "5xx/timeouts inside api.request are C12's subject (the differential run injects the non-retried 400/409 only; 403/429/5xx are retried there)",
+    "an operator restart loses the in-memory remaining patch (handler-supplied fns of a conflicting cycle): outside the "
+    "property's quantifier, not modelled",
+    "handler-supplied fns are state-checking / safe to call repeatedly (docs/patches.rst); the model's fns all are",
 ]
 
 ROOT = Path(__file__).resolve().parent.parent.parent
@@ -251,10 +259,12 @@ class CaseRun:
         rec = {"kind": kind, "slip": None, "req": req}
         if self.cur is not None and kind is not None:
             w = (self.cur.get("slips") or {}).get(kind)
-            if w is not None and kind not in self.cur["_slipped"]:
+            if w and kind not in self.cur["_slipped"]:
                 self.cur["_slipped"].add(kind)
-                self.foreign(w)
-                rec["slip"] = w
+                ws = [w] if isinstance(w[0], str) else list(w)     # one write or several, in order
+                for w1 in ws:
+                    self.foreign(w1)
+                rec["slip"] = ws[0] if len(ws) == 1 else ["several"] + [x[0] for x in ws]
         rec["pre"] = self.get()
         rec["post"] = rec["pre"]
         self.log.append(rec)
@@ -870,9 +880,10 @@ def gen_random(rng: Any, i: int) -> dict:
         quiet_tail = c > 0 and rng.random() < 0.5
         if not quiet_tail:
             for _ in range(rng.choice([0, 1, 1, 2])):
-                cyc["slips"][rng.choice(KINDS)] = _rand_write(rng)
+                cyc["slips"][rng.choice(KINDS)] = _rand_write(rng) if rng.random() < 0.7 else \
+                    [_rand_write(rng) for _ in range(rng.choice([2, 2, 3]))]
             for _ in range(rng.choice([0, 0, 1, 2])):
-                cyc["faults"][rng.choice(KINDS)] = rng.choice([404, 422, 422])
+                cyc["faults"][rng.choice(KINDS)] = rng.choice([404, 422, 422, 409, 400])
         cycles.append(cyc)
     return {"sub": rng.random() < 0.5, "initial": ini, "cycles": cycles, "via": rng.choice(["patch_obj", "patch_obj", "apply"]),
             "carrier": rng.choice(["event", "event", "daemon"]), "tag": f"random:{i}"}
@@ -895,6 +906,16 @@ def evaluate(ctx: Ctx, cases: list[dict], tie: bool = True) -> None:
         ctx.count("source", case.get("tag", "?").split(":")[0])
         ctx.count("via", case.get("via", "patch_obj"))
         ctx.count("subresource", case["sub"])
+        cyc_obs = [o for o in obs["cycles"] if "reqs" in o]
+        for a, b in zip(cyc_obs, cyc_obs[1:]):
+            # the documented re-application: 3rd request accepted, 4th refused, everything applied again next time
+            ks = [(r["kind"], r["code"]) for r in a["reqs"]]
+            if ("jsonBody", 200) in ks and ("jsonStatus", 422) in ks and b["outcome"].get("remaining") is None \
+                    and a["final_raw"] is not None and b["final_raw"] is not None and all(r["code"] == 200 and not r["slip"] for r in b["reqs"]) \
+                    and case.get("carrier", "event") == "daemon":
+                fa, fb = _fins(a["final_raw"]), _fins(b["final_raw"])
+                ctx.count("reapplied_after_status_conflict",
+                          "same list" if fa == fb else "order changed" if sorted(fa) == sorted(fb) else "membership changed")
         for o in obs["cycles"]:
             if "reqs" not in o:
                 ctx.count("cycle", "skipped (object absent)")
